@@ -196,3 +196,27 @@ Qed.
 Definition count_sel (fns : list fn_rec) (sel : fn_rec -> bool) : nat := List.length (filter sel fns).
 Definition count_storing_sel (fns : list fn_rec) (sf : store_facts) (sel : fn_rec -> bool) (t q : N) : nat :=
   List.length (filter (fun f => sel f && existsb (fun e => N.eqb (fst e) t && memN q (snd e)) (stores_of sf (fn_id f))) fns).
+
+(* ---- into which parameters' byte arrays a function may write text IN PLACE (fp_text_into):
+   p is listed when the function may write bytes into an existing byte array derived from parameter
+   p - an append to a []byte derived from p (into its spare capacity), a copy into it, a store to
+   an element of it, a call that does.  Text is assigned by reference (Set hands the bytes of its
+   source to the destination), so the bytes a value holds may be another value's: an operation
+   that rewrites them where they lie writes that other value. *)
+Definition text_into (ti : list (N * list N)) (i : N) : list N := result_from ti i.
+
+(* checked: every selected function writes text in place into the byte arrays of the allowed parameters only *)
+Definition only_into (fns : list fn_rec) (ti : list (N * list N)) (sel : fn_rec -> bool) (allowed : list N) : bool :=
+  forallb (fun f => if sel f then forallb (fun q => memN q allowed) (text_into ti (fn_id f)) else true) fns.
+
+Theorem only_into_sound fns ti sel allowed :
+  only_into fns ti sel allowed = true ->
+  forall f, In f fns -> sel f = true -> forall q, In q (text_into ti (fn_id f)) -> In q allowed.
+Proof.
+  unfold only_into. intros H f Hf Hs q Hq. rewrite forallb_forall in H. specialize (H f Hf).
+  rewrite Hs in H. rewrite forallb_forall in H. apply memN_In. apply H. exact Hq.
+Qed.
+
+(* not vacuous: how many selected functions do write text in place into parameter q *)
+Definition count_into (fns : list fn_rec) (ti : list (N * list N)) (sel : fn_rec -> bool) (q : N) : nat :=
+  List.length (filter (fun f => sel f && memN q (text_into ti (fn_id f))) fns).
